@@ -344,7 +344,8 @@ func (n *Node) BeginBlock(b BlockIn) abci.ResponseBeginBlock {
 	for _, i := range b.Evidence {
 		v := n.W.Vals[i%len(n.W.Vals)]
 		val, found := n.App.StakingKeeper.GetValidatorByConsAddr(ctx, v.ConsAddr())
-		if !found {
+		// (consensus only reports misbehaviour of validators that had voting power)
+		if !found || val.ConsensusPower(sdk.DefaultPowerReduction) < 1 {
 			continue
 		}
 		byz = append(byz, abci.Misbehavior{Type: abci.MisbehaviorType_DUPLICATE_VOTE,
